@@ -145,6 +145,10 @@ func KeyOf(kt string, j int) interface{} {
 		if j == 0 {
 			return ""
 		}
+		if j%5 == 4 {
+			// Some keys are long (more than a machine word or a short-string fast path).
+			return "long-key-" + strconv.Itoa(j) + "-" + strings.Repeat("abcdefghij", 3+j%3)
+		}
 		return "k" + strconv.Itoa(j*j) + strings.Repeat("x", j%4)
 	case "uint8":
 		return uint8(j * 37)
